@@ -508,6 +508,10 @@ def run(tier):
             # generator and step structure (C01's K5) are part of "the same function"
             from . import c01
             c01.k5(prog, rep)
+            # the implementations differ in which scratch they use (SHA-NI leaves W/S alone, the portable and SSE2 transforms
+            # overwrite them): regions handed to the transform's helpers are disjoint, or the subsets disagree (C01's K7)
+            if "alg/sha256.c" in prog.units:
+                c01.k7_regions(prog, rep, only=("alg/sha256.c",))
             # the AES-CTR siblings must agree on counter layout and position bookkeeping (rules shared with C02)
             from . import c02
             c02.l1_l3(prog, rep)
